@@ -15,7 +15,8 @@ class Undecidable(Exception):
 
 _CMP = {ast.Lt: operator.lt, ast.LtE: operator.le, ast.Gt: operator.gt, ast.GtE: operator.ge, ast.Eq: operator.eq, ast.NotEq: operator.ne,
         ast.In: lambda a, b: a in b, ast.NotIn: lambda a, b: a not in b, ast.Is: operator.is_, ast.IsNot: operator.is_not}
-_BIN = {ast.Add: operator.add, ast.Sub: operator.sub, ast.Mult: operator.mul}
+_BIN = {ast.Add: operator.add, ast.Sub: operator.sub, ast.Mult: operator.mul, ast.Mod: operator.mod, ast.FloorDiv: operator.floordiv,
+        ast.LShift: operator.lshift, ast.RShift: operator.rshift, ast.BitAnd: operator.and_, ast.BitOr: operator.or_, ast.BitXor: operator.xor}
 
 
 def _text(e):
@@ -72,7 +73,10 @@ def ev(e, env):
             return -v
         raise Undecidable("unary %s" % type(e.op).__name__)
     if isinstance(e, ast.BinOp) and type(e.op) in _BIN:
-        return _BIN[type(e.op)](ev(e.left, env), ev(e.right, env))
+        try:
+            return _BIN[type(e.op)](ev(e.left, env), ev(e.right, env))
+        except (ZeroDivisionError, ValueError, TypeError) as ex:
+            raise Undecidable("arithmetic: %s" % ex)
     if isinstance(e, ast.IfExp):
         return ev(e.body, env) if ev(e.test, env) else ev(e.orelse, env)
     if isinstance(e, ast.Subscript):
@@ -119,6 +123,17 @@ def _exec(stmts, env):
             _exec(st.body if ev(st.test, env) else st.orelse, env)
             continue
         if isinstance(st, ast.Pass):
+            continue
+        if isinstance(st, ast.AugAssign) and isinstance(st.target, ast.Name) and type(st.op) in _BIN:
+            env[st.target.id] = _BIN[type(st.op)](ev(st.target, env), ev(st.value, env))
+            continue
+        if isinstance(st, ast.While):
+            n = 0
+            while ev(st.test, env):
+                _exec(st.body, env)
+                n += 1
+                if n > 10000:
+                    raise Undecidable("loop does not terminate on the finite domain")
             continue
         raise Undecidable("statement %s" % type(st).__name__)
 
